@@ -53,3 +53,39 @@ func ranges(bs []big, ws [4]word, m map[string]big, arr [64]big, parr *[64]big) 
 func results() (int, int, int, int, int, int) { return 0, 0, 0, 0, 0, 0 }
 
 func results5() (a, b, c, d, e int) { return }
+
+type ider interface{ IsUnique() bool }
+
+// anonymous struct types with type-parameter fields (sizes cannot be computed: issue 1354 shape)
+func anon[T ider](id T, pair struct{ a, b T }) int {
+	cases := []struct {
+		id T
+		n  [16]int
+	}{{id: id}}
+	n := 0
+	for _, tc := range cases {
+		if tc.id.IsUnique() {
+			n++
+		}
+	}
+	arr := [4]struct{ v T }{}
+	for _, e := range arr {
+		_ = e
+	}
+	for range arr {
+		n++
+	}
+	_ = pair
+	return n
+}
+
+func anon2[K comparable, V any](m map[K]struct {
+	k K
+	v V
+}, s struct{ k K }) (r struct{ v V }) {
+	for _, e := range m {
+		_ = e
+	}
+	_ = s
+	return
+}
